@@ -1,7 +1,10 @@
 package legs
 
 import (
+	"strings"
+
 	"rvharness/internal/core"
+	"rvharness/internal/gen"
 )
 
 // C15 — right-to-left mode is the mirror image of left-to-right.
@@ -12,7 +15,8 @@ func init() {
 		core.RunLeg(c, core.Leg[specCase]{
 			Name: "S-rtl", Kind: "correspondence(spec)",
 			Rule: "as leg S of C01 but every pattern is compiled with RightToLeft (alone and with i/m/s/n/x/RE2 drawn at random): Go FindRunesMatchStartingAt (start = len or random) vs Lean Spec.find with rtl = true (descending attempt positions, leftward consumption, last-to-first concatenation, lookahead rightwards, spans normalised); non-trivial = AST has >1 node and input non-empty; distinct by (options, pattern, input, start)",
-			N:    c.N(6000, 400000), Gen: st.next, Check: specCheck("C15"), Batch: 4000,
+			Corpus: c15LongLiterals(),
+			N:      c.N(6000, 400000), Gen: st.next, Check: specCheck("C15"), Batch: 4000,
 		})
 		st2 := &specGenState{cfg: c01Config(true), perAst: 6, maxLen: 10}
 		core.RunLeg(c, core.Leg[specCase]{
@@ -21,4 +25,28 @@ func init() {
 			N:    c.N(4000, 300000), Gen: st2.next, Check: specTreeCheck("C15"), Batch: 4000,
 		})
 	})
+}
+
+// c15LongLiterals: literals longer than the 50 runes the prefix search keeps (syntax.MaxPrefixSize). Read right to
+// left the kept part is the literal's tail, and the generated inputs (at most 10 runes) never get there. Head and
+// tail differ, the literal occurs once or twice, a near miss shares only the head or only the tail.
+func c15LongLiterals() []specCase {
+	lit := func(s string) *gen.Node {
+		q := &gen.Node{Kind: gen.KSeq}
+		for _, r := range s {
+			q.Subs = append(q.Subs, &gen.Node{Kind: gen.KLit, Ch: r})
+		}
+		return q
+	}
+	var out []specCase
+	for _, l := range []string{strings.Repeat("ab", 20) + strings.Repeat("cd", 11), strings.Repeat("x", 49) + "yz", "q" + strings.Repeat("éa", 30)} {
+		head, tail := string([]rune(l)[:50]), string([]rune(l)[len([]rune(l))-50:])
+		for _, in := range []string{"###" + l + "---zz", l, "a" + l + l + "b", head + "!!" + l + " " + tail, tail + head} {
+			for _, o := range []gen.Opts{{RTL: true}, {RTL: true, I: true}} {
+				t := []rune(in)
+				out = append(out, specCase{Ast: lit(l), Opts: o, Text: t, Start: len(t)})
+			}
+		}
+	}
+	return out
 }
